@@ -123,6 +123,7 @@ func runWorkload(t *rapid.T, run c04Run, st *vfkit.Collector, label string) {
 		}
 	}
 	files := map[string]string{"ca.pem": string(ca.CertPEM)}
+	var store *vfkit.FakeRedis
 	var ups []*FakeUpstream
 	for i, k := range run.upKinds {
 		u, err := StartUpstream(k, "up"+itoa(i), block+"2", 0, serverTLS(leaf), handler)
@@ -145,6 +146,18 @@ func runWorkload(t *rapid.T, run c04Run, st *vfkit.Collector, label string) {
 		cfg.Cache = &CacheCfg{MemSize: 32 << 20}
 	case "tiny":
 		cfg.Cache = &CacheCfg{MemSize: 6000}
+	case "store", "tiny+store":
+		// second-level cache: the harness's own RESP3 store (kit/fakeredis.go), alone or behind a tiny memory cache
+		rd, err := vfkit.StartFakeRedis(block + "3")
+		if err != nil {
+			t.Fatalf("store: %v", err)
+		}
+		defer rd.Close()
+		store = rd
+		cfg.Cache = &CacheCfg{Redis: rd.URL()}
+		if run.cache == "tiny+store" {
+			cfg.Cache.MemSize = 6000
+		}
 	}
 	p, err := StartProxy(cfg.YAML(), files, ProxyOpts{Race: true, GoMaxProcs: run.maxProcs})
 	if err != nil {
@@ -153,6 +166,12 @@ func runWorkload(t *rapid.T, run c04Run, st *vfkit.Collector, label string) {
 	defer p.Cleanup()
 	if p.Exited() {
 		t.Fatalf("proxy exited at start: %s", tail(p.Stderr(), 2000))
+	}
+	if store != nil {
+		// the proxy uses the store after its first successful PING (a one-second ticker)
+		for until := time.Now().Add(5 * time.Second); store.Pings.Load() < 2 && time.Now().Before(until); {
+			time.Sleep(20 * time.Millisecond)
+		}
 	}
 	// question pool
 	pool := make([]c04Triple, run.poolSize)
@@ -475,6 +494,10 @@ func runWorkload(t *rapid.T, run c04Run, st *vfkit.Collector, label string) {
 	if int64(upTotal) < total.Load() {
 		classes = append(classes, "cache-hits")
 	}
+	if store != nil {
+		st.Class("store-hits", int(store.Hits.Load()))
+		st.Class("store-sets", int(store.Sets.Load()))
+	}
 	st.Class("queries", int(total.Load()))
 	st.Class("upstream-queries", upTotal)
 	st.Class("no-response", int(missing.Load()))
@@ -488,7 +511,7 @@ func genRun(t *rapid.T, cancelRich bool) c04Run {
 	// every run uses every listener kind (each has its own buffer handling); the order decides which kinds get more clients
 	run.listeners = rapid.Permutation(AllListenerKinds).Draw(t, "listeners")
 	run.upKinds = rapid.SliceOfNDistinct(rapid.SampledFrom([]string{"udp", "tcp", "tcp+pipeline", "tls", "tls+pipeline", "https", "quic", "h3"}), 2, 4, func(s string) string { return s }).Draw(t, "upstreams")
-	run.cache = rapid.SampledFrom([]string{"off", "large", "tiny", "tiny"}).Draw(t, "cache")
+	run.cache = rapid.SampledFrom([]string{"off", "large", "tiny", "tiny", "store", "tiny+store"}).Draw(t, "cache")
 	run.ttl = rapid.SampledFrom([]uint32{1, 2, 60}).Draw(t, "ttl")
 	run.clients = rapid.IntRange(8, 48).Draw(t, "clients")
 	run.perClient = rapid.SampledFrom([]int{60, 150, 300}).Draw(t, "perClient")
@@ -513,7 +536,7 @@ func genRun(t *rapid.T, cancelRich bool) c04Run {
 }
 
 func TestVfC04Mixups(t *testing.T) {
-	st := vfkit.Stats("TestVfC04Mixups", "runs of 8-48 concurrent clients spread over all 8 listener kinds x 60-300 queries each from a pool of 20-400 (name,type,class) triples (mixed case, with/without OPT), 2-4 upstream kinds with per-reply delays (reordering), cache off/large/tiny, TTL 1-60 s (one run in three prefetch-rich: TTL 5-6 s, small pool, >= 7 s of traffic), GOMAXPROCS {default,2,4}, against the -race -tags verif binary; oracle per response: question and keyed answer belong to this response's own query, no poison octets anywhere, no race report, no canary; non-trivial = >= 8 queries simultaneously in flight at an upstream with >= 2 listener kinds and >= 2 upstream kinds")
+	st := vfkit.Stats("TestVfC04Mixups", "runs of 8-48 concurrent clients spread over all 8 listener kinds x 60-300 queries each from a pool of 20-400 (name,type,class) triples (mixed case, with/without OPT), 2-4 upstream kinds with per-reply delays (reordering), cache off/large/tiny/second-level store (the harness's RESP3 server) alone or behind a tiny memory cache, TTL 1-60 s (one run in three prefetch-rich: TTL 5-6 s, small pool, >= 7 s of traffic), GOMAXPROCS {default,2,4}, against the -race -tags verif binary; oracle per response: question and keyed answer belong to this response's own query, no poison octets anywhere, no race report, no canary; non-trivial = >= 8 queries simultaneously in flight at an upstream with >= 2 listener kinds and >= 2 upstream kinds")
 	defer vfkit.Flush()
 	rapid.Check(t, func(t *rapid.T) {
 		runWorkload(t, genRun(t, false), st, "c04")
